@@ -290,5 +290,6 @@ def run(ctx):
             return None
         w.add('clean - - 1', ('summary-in-trimpath-mode', expt2))
         tps.append(w)
-    run_suite(ctx, 'clean.trimpath', tps, known=known, use_model=False)
+    if getattr(ctx, 'hooks', {}).get('trimpath', True):
+        run_suite(ctx, 'clean.trimpath', tps, known=known, use_model=False)
     findings.report(ctx, 'C20')
